@@ -208,7 +208,7 @@ def r4(ctx):
     rule.check(bool(due) and ws and ins and not any(bi in r for bi, _ in ws + ins), "the pending node is applied only past pending.replace <= Instant::now()", "apply_pending|before-timeout",
                "apply_pending can insert the pending node before its timeout elapsed", loc=b.loc(b.line))
     rem = node_removes(b, p)
-    notconn = bool_pass_edges(g, lambda e: e[0] == "call" and e[1].endswith("NodeStatus::is_connected") and fmt_short(e[2][0]) == "self.nodes[].status", want_true=False)
+    notconn = bool_pass_edges(g, lambda e: e[0] == "call" and e[1].endswith("NodeStatus::is_connected") and fmt_short(e[2][0]) in ("self.nodes[].status", "self.nodes[0].status"), want_true=False)
     r = b.reachable(0, removed_edges=notconn)
     rule.check(bool(notconn) and rem and not any(bi in r for bi, _ in rem), "evictions only past !nodes[0].status.is_connected()", "apply_pending|evict-connected",
                "apply_pending can evict a connected node", loc=b.loc(b.line))
